@@ -11,18 +11,18 @@ DRV = 'drv_c18'
 
 REGISTRY = {
     'id': 'C18',
-    'text': 'Lean theorems over a hand-written model of condense_to_mass_mods (static rules condensed, residue-free annotations taken '
-            'off, one-residue pieces, mass(piece)-mass(stripped), 1e-6 cut-off, round-half-even, sums for termini/labile/unknown/'
-            'intervals) with every mass a parameter: same residues, numeric-only output, unmodified peptide unchanged, shifts only on '
-            'modified positions, |mass(out)-mass(in)| <= k/2*10^-p for ANY weights when no label is in force, and the general bound '
-            'from the per-piece decomposition. Model tied to /repo by differential correspondence (text, numbers within 10^-p); '
-            'the property itself is evaluated on the implementation with mass as oracle and an independent per-position reference',
+    'text': 'Lean theorems over a hand-written model of condense_to_mass_mods as repaired in /repo (static rules condensed on a copy, '
+            'charge/adducts/unknown/interval mods taken off, one-residue pieces, mass(piece)-mass(stripped) minus the terminal '
+            'label shift, 1e-6 cut-off, round-half-even, sums for termini/labile/unknown/intervals) with every mass a parameter: '
+            'same residues, numeric-only output, unmodified peptide unchanged, shifts only on modified positions, '
+            '|mass(out)-mass(in)| <= k/2*10^-p (+1e-6 per nonzero quantity under the cut-off) for ANY weights without label and, '
+            'with a label in force, in every environment where the two mass calculators agree (Coherent); the text written '
+            'denotes the rounded number. Model tied to /repo by differential correspondence (text, numbers within 10^-p); the '
+            'property itself is evaluated on the implementation with mass as oracle and an independent per-position reference',
     'note': 'trusted: Lean kernel, axioms propext/Classical.choice/Quot.sound, the correspondence harness, numbers resolved by the '
             'implementation (mod_mass, mod_comp, tables: C02/C03/C10), round() on doubles vs round-half-even on rationals (10^-p)',
     'technique': 'Lean 4 proof about executable model + differential correspondence + relational oracle on the implementation',
 }
-
-KF_WATER = 'KF-C18-label-terminal-atoms-per-residue'
 
 # ('+15.995|Oxidation', a mod whose alternatives contradict each other, is C10's business and is left out here)
 VALUE_POOL = E.POOL + E.NUMERIC + ['Oxidation|INFO:ok', 'Obs:+17.05', 'Phospho#g1', 'Oxidation|Obs:+15.9949']
@@ -54,11 +54,6 @@ def gen_case(rng, Mod):
 
 def _ann(c):
     return annot.undump(c['a'])
-
-
-def water_label(a):
-    """an isotope label on an element of the terminal H / OH"""
-    return any(E.LABEL_ELEMENT.get(m.val, '?') in ('H', 'O') for m in (a._isotope_mods or []))
 
 
 def oracles():
